@@ -83,6 +83,27 @@ def check(ctx):
                                               f"the mask no longer matches and missing values are not last")
             else:
                 why = "the two parts index different vectors or use different masks; or the missing part is first"
+        if not ok and v is not None:
+            # an exit taken only when nothing is missing: there is nothing to place last, the sorted vector goes out whole
+            fs = facts_at(sort, r)
+            for k_, t_ in fs:
+                m_ = None
+                if k_ == "F" and t_.endswith(".any()"):
+                    m_ = t_[:-len(".any()")]
+                elif k_ == "T" and t_.startswith("not ") and t_.endswith(".any()"):
+                    m_ = t_[4:-len(".any()")]
+                if not m_ or not m_.isidentifier():
+                    continue
+                mdefs = defs_reaching(sort, m_, r)
+                if len(mdefs) != 1 or mdefs[0].value is None or not norm(mdefs[0].value).endswith(".is_na()"):
+                    continue
+                X_ = norm(mdefs[0].value)[:-len(".is_na()")]
+                roots = {n.id for n in ast.walk(v) if isinstance(n, ast.Name)}
+                same_x = X_.isidentifier() and {id(x.node) for x in defs_reaching(sort, X_, r)} == \
+                    {id(x.node) for x in defs_reaching(sort, X_, mdefs[0].node.ast)}
+                if roots == {X_} and same_x:
+                    ok, why = True, f"taken only when {X_} has no missing value ({k_}:{t_}): the sorted vector is returned whole"
+                    break
         ctx.ob("SIB-na-last", sort, norm(v) if v is not None else "return", r, ok, why,
                clause="missing values last in both directions")
     # ----------------------------------------------------------- MPT-rank
@@ -175,8 +196,19 @@ def check(ctx):
                 for d in defs_reaching(uniq, s.slice.id, r):
                     if d.value is not None and (".sort(" in norm(d.value) or "np.sort(" in norm(d.value) or "sorted(" in norm(d.value)):
                         ok = True
+        if not ok:
+            # used as they are only under a test that they are already increasing (neighbours compared, not subtracted)
+            import re as _re
+            for s in subs:
+                if not isinstance(s.slice, ast.Name):
+                    continue
+                I_ = _re.escape(s.slice.id)
+                pats = [rf"^\(?{I_}\[1:\] >=? {I_}\[:-1\]\)?\.all\(\)$", rf"^\(?{I_}\[:-1\] <=? {I_}\[1:\]\)?\.all\(\)$",
+                        rf"^(np|numpy)\.all\({I_}\[1:\] >=? {I_}\[:-1\]\)$", rf"^(np|numpy)\.all\({I_}\[:-1\] <=? {I_}\[1:\]\)$"]
+                if any(k_ == "T" and any(_re.match(p_, t_) for p_ in pats) for k_, t_ in facts_at(uniq, r)):
+                    ok = True
         ctx.ob("ORD-unique", uniq, norm(r.value), r, ok,
-               "indices are sorted before they index the vector" if ok else
+               "indices are sorted before they index the vector (or tested to be increasing already)" if ok else
                "first-occurrence indices are used unsorted: result is in value order, not in order of first occurrence",
                clause="order of first occurrence")
     # ------------------------------------------------ GRD-empty / GRD-width
